@@ -45,6 +45,12 @@ def mutations(rng, approx_len, full):
     for pos, vals in ((9, (0, 2, 3, 4, 5, 9)), (10, (1,)), (11, (0, 2)), (12, (0, 2, 3, 4, 5, 255)), (13, (0, 1, 3)), (14, (1,)), (15, (0, 19, 21))):
         muts += ["set=%d:%d" % (pos, v) for v in vals]
     muts += ["app=00", "app=ff0102"]
+    # the cipher ids of the advertised list (C06: altering the lists in transit makes the handshake fail): in a ping / pong the list part follows the stage,
+    # node id hash and ECDH key parts, its entries (id, 4 bytes speed) start at byte 74
+    for pos in (74, 79, 84):
+        for v in (range(0, 12) if full else (0, 1, 2, 3, 4, 5, 9, 255)):
+            muts.append("set=%d:%d" % (pos, v))
+    muts += ["set=75:%d" % rng.below(256), "set=78:%d" % rng.below(256)]      # a speed
     # field edits of a genuine message: the length of each kind of part set to extreme and off-by-one values
     for tag in (1, 2, 3, 4, 5):
         for v in ("0000", "0001", "ffff", "fff8", "fff7", "8000", "0013", "0015", "001f", "0021"):
@@ -278,10 +284,11 @@ def algos_part(rng, plain=False, lst=((3, 400.0),)):
 
 def signed_parts_scripts(rng, thorough):
     n = 0
-    for trustB, signer in (([0, 1], 0), ([1], 0), ([0, 1], 2)):
+    plain_too = algos_str(True, [("aes128", 600.0), ("chacha", 400.0)])
+    for trustB, signer, algB in (([0, 1], 0, DEFAULT_ALGOS), ([1], 0, DEFAULT_ALGOS), ([0, 1], 2, DEFAULT_ALGOS), ([0, 1], 0, plain_too), ([0, 1], 0, algos_str(True, []))):
         ops = ["ikeys 4 %s" % rng.bytes(6).hex(),
                party("A", 0, [0, 1], DEFAULT_ALGOS, rng.bytes(16).hex()),
-               party("B", 1, trustB, DEFAULT_ALGOS, rng.bytes(16).hex()),
+               party("B", 1, trustB, algB, rng.bytes(16).hex()),
                "iattempt a A payload=%s" % hx(rng.bytes(5))]
         stage = lambda v: tlv(1, bytes([v]))
         nid = lambda: tlv(2, rng.bytes(20))
@@ -315,6 +322,15 @@ def signed_parts_scripts(rng, thorough):
         variants.append(("algos-len-7", [stage(1), nid(), ecdh(), tlv(4, rng.bytes(7))]))
         variants.append(("algos-unknown-cipher", [stage(1), nid(), ecdh(), tlv(4, bytes([9]) + bytes(4) + bytes([3]) + f32bits(5.0).to_bytes(4, "big"))]))
         variants.append(("algos-empty", [stage(1), nid(), ecdh(), tlv(4, b"")]))
+        # cipher ids of a newer peer (outside 1..3) are not ciphers of this node and are not the plain marker either: the receiver answers with what is common
+        # to the KNOWN entries (sealed payload unless both enabled plain), or fails cleanly when nothing is common
+        sp4 = lambda: f32bits(100.0 + rng.below(900)).to_bytes(4, "big")
+        for unkid in (4, 9, 0x80, 0xff):
+            variants.append(("algos-unknown%d-first" % unkid, [stage(1), nid(), ecdh(), tlv(4, bytes([unkid]) + sp4() + bytes([3]) + sp4())]))
+            variants.append(("algos-unknown%d-last" % unkid, [stage(1), nid(), ecdh(), tlv(4, bytes([1]) + sp4() + bytes([unkid]) + sp4())]))
+            variants.append(("algos-unknown%d-only" % unkid, [stage(1), nid(), ecdh(), tlv(4, bytes([unkid]) + sp4())]))
+        variants.append(("algos-unknown-and-plain", [stage(1), nid(), ecdh(), tlv(4, bytes([0]) + bytes.fromhex("7f800000") + bytes([7]) + sp4())]))
+        variants.append(("algos-plain-only", [stage(1), nid(), ecdh(), tlv(4, bytes([0]) + bytes.fromhex("7f800000"))]))
         variants.append(("empty", []))
         variants.append(("payload-in-ping", base + [pay()]))
         k = 0
